@@ -189,6 +189,71 @@ pub fn c01(tier: Tier, seed: u64) -> Prop {
     for r in C01_ROWS {
         units.extend(mov_units(r, tier, seed));
     }
+    // ---- a machine on which the MES system calls have been made (handlers installed for every vector, text written):
+    //      whatever a system call remembers must not change where MOV stores go afterwards
+    units.push(Unit::new(
+        "after-system-calls",
+        16,
+        "after set_handler for every vector 1-63 and one console write through the real TRAPA #0: MOV.B R0L,@ER1 to every byte, MOV.W R0,@ER1 to every even address and MOV.L ER0,@ER1 to every long-aligned address of on-chip RAM and of the vector area, each compared with the reference (the stored bytes and nothing else change)",
+        move |ctx, chunk| {
+            ctx.m = crate::hv::mach::Mach::new();
+            super::mes::ensure_socket(ctx);
+            // the calls themselves (their own effects are C14's subject: the shadow simply takes them over)
+            let code_at = dom::CODE_DRAM + 0x40;
+            let arg = dom::DATA_DRAM + 0x200;
+            for v in 1..=63u32 {
+                ctx.m.poke_bytes(code_at, &[0x57, 0x00]);
+                ctx.m.poke_bytes(arg, &v.to_be_bytes());
+                ctx.m.poke_bytes(arg + 4, &(0x0041_7000u32 + 0x10 * v).to_be_bytes());
+                let cpu = &mut ctx.m.cpu;
+                cpu.er = dom::background_regs();
+                cpu.er[0] = 113;
+                cpu.er[1] = arg;
+                cpu.er[7] = dom::STACK_DRAM;
+                cpu.vh_set_pc(code_at);
+                cpu.vh_set_ccr(0x80);
+                let _ = cpu.vh_step();
+            }
+            {
+                ctx.m.poke_bytes(arg, &1u32.to_be_bytes());
+                ctx.m.poke_bytes(arg + 4, &(arg + 0x20).to_be_bytes());
+                ctx.m.poke_bytes(arg + 8, &3u32.to_be_bytes());
+                ctx.m.poke_bytes(arg + 0x20, b"ok\n");
+                let cpu = &mut ctx.m.cpu;
+                cpu.er[0] = 104;
+                cpu.er[1] = arg;
+                cpu.vh_set_pc(code_at);
+                let _ = cpu.vh_step();
+            }
+            let _ = super::mes::drain();
+            ctx.m.restore();
+            ctx.m.shadow_from_real();
+            let regs = dom::background_regs();
+            let rows = [(ctx.isa.row("MOV.B Rs,@ERd"), 1u32), (ctx.isa.row("MOV.W Rs,@ERd"), 2), (ctx.isa.row("MOV.L ERs,@ERd"), 4)];
+            let areas: [(u32, u32); 2] = [(0xffbf20, 0xffff1f), (0x000000, 0x0000ff)];
+            for (row, n) in rows {
+                let f = Fields { rs: if n == 1 { 8 } else { 0 }, ra: 1, ..Fields::default() };
+                let code = ctx.isa.encode(row, &f);
+                for (lo, hi) in areas {
+                    let mut a = lo;
+                    let mut k = 0u64;
+                    while a + n - 1 <= hi {
+                        if k % 16 == chunk {
+                            let mut c = Case::new(dom::CODE_DRAM, &code);
+                            c.er = regs;
+                            c.er[0] = 0x6b3c_19e5 ^ a;
+                            c.er[1] = a | 0x7700_0000;
+                            c.ccr = a as u8;
+                            ctx.run(&c);
+                        }
+                        a += n;
+                        k += 1;
+                    }
+                }
+            }
+            ctx.m = crate::hv::mach::Mach::new();
+        },
+    ));
     Prop {
         id: "C01",
         level: "exploration",
